@@ -28,10 +28,20 @@ EXTRA_TARGETS = {   # only what the part needs: e.g. a broken batch-norm or nll-
     "Props/C13_vector.v": ["Analysis/Vector.vo", "Gen/GenVecKernels.vo", "Proofs/VecKernelProofsBNStats.vo"],
 }
 
+NEEDS = {   # kernels / wrappers a part's theorems mention: only their translation failures break that part's tie
+    "Props/C02_vector.v": None,       # everything
+    "Props/C09_vector.v": {"softmax_forward", "log_softmax_forward", "nll_loss_forward", "cross_entropy_loss_forward",
+                           "softmax_forward/intermediates", "log_softmax_forward/intermediates", "cross_entropy_loss_forward/intermediates"},
+    "Props/C14_vector.v": {"log_forward", "softmax_forward", "softmax_backward", "log_softmax_forward", "log_softmax_backward",
+                           "nll_loss_forward", "nll_loss_backward", "cross_entropy_loss_forward", "cross_entropy_loss_backward",
+                           "wrapper:softmax", "wrapper:log_softmax", "wrapper:nll_loss", "wrapper:cross_entropy"},
+    "Props/C13_vector.v": {"batch_norm_forward"},
+}
+
 _done = {}     # per process: translator + self-check are run once even if several parts are requested
 
 
-def _translate_and_selfcheck(ctx):
+def _translate_and_selfcheck(ctx, props_file):
     if "ir" in _done:
         return _done["ir"], _done["w"]
     from lib.py2coq import gen_veckernels as G
@@ -40,7 +50,17 @@ def _translate_and_selfcheck(ctx):
     try:
         ir, w, txt = G.generate(common.REPO)
         changed = common.write_if_changed(os.path.join(common.COQ, G.OUT_REL), txt)
-        ctx.log("veckernels: translated %d kernels, %d wrappers%s" % (len(ir["kernels"]), len(w), " (Gen file changed)" if changed else ""))
+        ctx.log("veckernels: translated %d kernels, %d wrappers%s" % (len(ir["kernels"]), len(w) - 1, " (Gen file changed)" if changed else ""))
+        fails = G.all_failures(ir, w)
+        need = NEEDS[props_file]
+        mine = {k: v for k, v in fails.items() if need is None or k in need}
+        if fails:
+            ctx.notes.append("veckernels translator refused: %s" % fails)
+        if mine:
+            ctx.tie("veckernels/translator", "translator-selfcheck", len(mine), 0,
+                    [{"kernel": k, "error": "translator refused the current source: %s" % v} for k, v in mine.items()],
+                    note="fail-closed translator raised for a kernel / wrapper this part depends on; it is omitted from "
+                         "Gen/GenVecKernels.v, so the theorems about it do not compile")
     except Exception as ex:        # Untranslatable or a changed source shape: the tie is broken
         ctx.tie("veckernels/translator", "translator-selfcheck", 1, 0,
                 [{"error": "translator refused the current source: %s" % ex}],
@@ -230,7 +250,7 @@ def oracle_c13_stats(ctx):
 def run_part(ctx, props_file):
     """(a) translator, (b) self-check, (c) build of props_file, (d) oracle for that part.  Returns a small summary dict."""
     assert props_file in PROPS, props_file
-    ir, w = _translate_and_selfcheck(ctx)
+    ir, w = _translate_and_selfcheck(ctx, props_file)
     ok, fails = ctx.build_props(props_rel=props_file, extra_targets=EXTRA_TARGETS[props_file], timeout=900)
     if ok:
         ctx.assumption_axioms.update(_axioms_of_log(os.path.join(ctx.workdir, "build.log")))
